@@ -81,7 +81,9 @@ def render(alphabet, syms):
         elif k == "blank":
             out.append("\n" if i % 2 else "    \n")
         elif k == "unknown":
-            out.append("FOOBAR  not a PDB record\n")
+            # a line no parser accepts: an unknown record name, or a coordinate record cut off before its coordinates
+            # (an interrupted write): it carries no atom, and must not disturb the records around it
+            out.append(("FOOBAR  not a PDB record\n", "ATOM     55  N\n", "HETATM   56  O\n")[i % 3])
         elif k == "remark":
             out.append("REMARK   1 harmless remark\n")
         else:
